@@ -109,26 +109,31 @@ Definition loaded_len (frames : list N) : N := snd (fst (read_block frames (0, 0
 (* ------------------------------------------------------------------------------------------ *)
 (* (2) CSI geometry and binning query on an arbitrary (min_shift, depth, bin id)               *)
 
-(* const fn bin_limit(depth: u8) -> i32 { assert!(depth <= 10); (1 << ((depth + 1) * 3)) / 7 } *)
-Definition bin_limit (depth : N) : res N :=
-  if 10 <? depth then Panic S_ASSERT_DEPTH
-  else let sh := (depth + 1) * 3 in
-       if 32 <=? sh then Panic S_SHL_I32 else Ok (2 ^ sh / 7).
+(* The code AFTER the repairs "CSI index readers and queries panicked on an invalid min shift or
+   depth" and "CSI reference sequence query panicked on a bin ID outside of the binning scheme".
+   The code before them is kept below as [*_v0].
 
-(* fn max_position(min_shift: u8, depth: u8): assert!(min_shift > 0);
-   (1 << (usize::from(min_shift) + 3 * usize::from(depth))) - 1 *)
+   const MAX_DEPTH: u8 = 10;
+   const fn bin_limit(depth: u8) -> i32 { assert!(depth <= MAX_DEPTH); ((1i64 << ((depth+1)*3)) / 7) as i32 } *)
+Definition bin_limit (depth : N) : res N :=
+  if 10 <? depth then Panic S_ASSERT_DEPTH else Ok (2 ^ ((depth + 1) * 3) / 7).
+
+(* fn max_position(min_shift, depth): Err when min_shift == 0, depth > MAX_DEPTH, or
+   1usize.checked_shl(min_shift + 3*depth) is None *)
 Definition max_position (ms depth : N) : res N :=
-  if ms =? 0 then Panic S_ASSERT_MIN_SHIFT
+  if ms =? 0 then Err
+  else if 10 <? depth then Err
   else let sh := ms + 3 * depth in
-       if 64 <=? sh then Panic S_SHL_USIZE else Ok (2 ^ sh - 1).
+       if 64 <=? sh then Err else Ok (2 ^ sh - 1).
 
 (* resolve_interval with both bounds given (1-based, start <= end not required by the code) *)
-Definition resolve_interval (ms depth s e : N) : res (N * N) :=
-  match max_position ms depth with
+Definition resolve_interval_with (maxpos : N -> N -> res N) (ms depth s e : N) : res (N * N) :=
+  match maxpos ms depth with
   | Panic x => Panic x
   | Err => Err
   | Ok maxp => if maxp <? s then Err else if maxp <? e then Err else Ok (s, e)
   end.
+Definition resolve_interval := resolve_interval_with max_position.
 
 (* reg2bins: levels l = 0..depth; at each level the ids t + (beg >> s) ..= t + (end >> s) are set
    in a BitVec of [nbits] bits; [sel] records whether [id] was set.  [n] = levels left. *)
@@ -144,7 +149,8 @@ Fixpoint reg2bins (n : nat) (l t s beg en nbits id : N) (sel : bool) : res bool 
     end.
 
 (* ReferenceSequence::query on a reference sequence holding the single bin [id]:
-   Ok true = the bin is returned, Ok false = it is not *)
+   Ok true = the bin is returned, Ok false = it is not.
+   filter: region_bins.get(id).unwrap_or(false) *)
 Definition query (ms depth id s e : N) : res bool :=
   match resolve_interval ms depth s e with
   | Panic x => Panic x
@@ -157,15 +163,42 @@ Definition query (ms depth id s e : N) : res bool :=
           match reg2bins (N.to_nat depth) 0 0 (ms + depth * 3) (s - 1) (e - 1) nbits id false with
           | Panic x => Panic x
           | Err => Err
-          | Ok sel => if id <? nbits then Ok sel else Panic S_BITVEC_INDEX
+          | Ok sel => Ok (sel && (id <? nbits))
           end
       end
   end.
 
-(* the inputs on which query panics *)
-Definition known_query (ms depth id : N) : bool :=
-  (ms =? 0) || (64 <=? ms + 3 * depth) || (10 <=? depth)
-  || match bin_limit depth with Ok nbits => nbits <=? id | _ => true end.
+(* ---- the code before the repairs (recorded, fixed findings) ---- *)
+
+(* const fn bin_limit(depth: u8) -> i32 { assert!(depth <= 10); (1 << ((depth + 1) * 3)) / 7 } *)
+Definition bin_limit_v0 (depth : N) : res N :=
+  if 10 <? depth then Panic S_ASSERT_DEPTH
+  else let sh := (depth + 1) * 3 in
+       if 32 <=? sh then Panic S_SHL_I32 else Ok (2 ^ sh / 7).
+
+(* assert!(min_shift > 0); (1 << (usize::from(min_shift) + 3 * usize::from(depth))) - 1 *)
+Definition max_position_v0 (ms depth : N) : res N :=
+  if ms =? 0 then Panic S_ASSERT_MIN_SHIFT
+  else let sh := ms + 3 * depth in
+       if 64 <=? sh then Panic S_SHL_USIZE else Ok (2 ^ sh - 1).
+
+(* filter: region_bins[id] *)
+Definition query_v0 (ms depth id s e : N) : res bool :=
+  match resolve_interval_with max_position_v0 ms depth s e with
+  | Panic x => Panic x
+  | Err => Err
+  | Ok (s, e) =>
+      match bin_limit_v0 depth with
+      | Panic x => Panic x
+      | Err => Err
+      | Ok nbits =>
+          match reg2bins (N.to_nat depth) 0 0 (ms + depth * 3) (s - 1) (e - 1) nbits id false with
+          | Panic x => Panic x
+          | Err => Err
+          | Ok sel => if id <? nbits then Ok sel else Panic S_BITVEC_INDEX
+          end
+      end
+  end.
 
 (* ------------------------------------------------------------------------------------------ *)
 (* (3) rANS 4x8 order-0 frequency table                                                        *)
